@@ -6,7 +6,7 @@
 (* <<property id, predicate name>>.                                         *)
 (***************************************************************************)
 EXTENDS Naturals, Integers, Sequences, FiniteSets, SequencesExt,
-        FiniteSetsExt, Functions, TLC, Text, Vlq, SMap, Sem, Attr, Compose, Rope, EncM, SplitM
+        FiniteSetsExt, Functions, TLC, Text, Vlq, SMap, Sem, Attr, Compose, Rope, EncM, SplitM, ReplaceM
 
 NREG == 16
 EmptyHeap == [i \in 0..(NREG - 1) |-> Nil]
@@ -230,7 +230,7 @@ LawChecks(r, st) ==
                     IN IsMapLeaf(t) /\ MapFitsText(LeafMap(t), t.b)
                  THEN {<<"C08", "via_enclosing_map">>} ELSE {})
     [] r.law = "replace_inner" /\ AsciiConsistent(st.heap[r.r]) ->
-         {<<"C06", "replace_keeps_inner_attribution">>}
+         {<<"C06", "replace_keeps_inner_attribution">>, <<"DRIFT", "replace_stream_follows_ReplaceM">>}
     [] r.law = "edit_pair" -> {<<"C20", "different_observables_different_hash">>}
     [] OTHER -> {}
 
@@ -454,7 +454,7 @@ SameAnswer(op, r, old) ==
              theirs == StreamChunks(old.ev)
          IN /\ StreamText(mine) = StreamText(theirs)
             /\ r.out.end = old.end
-            /\ IF r.final THEN TRUE
+            /\ IF r.final \/ ~IsAscii(StreamText(mine)) THEN TRUE
                ELSE IF r.columns
                  THEN SameCore(ByteAttrsOfStream(mine), ByteAttrsOfStream(theirs))
                  ELSE LineAttrsOfStream(mine) = LineAttrsOfStream(theirs)
@@ -489,13 +489,15 @@ C14Holds(c, r, st) ==
                 LET text == st.obs[<<r.a, "source">>].t
                     ma == st.obs[<<r.a, "map", col>>].map
                     mb == st.obs[<<r.b, "map", col>>].map
-                IN IF col THEN SameFull(ByteAttrsOfOptMap(ma, text), ByteAttrsOfOptMap(mb, text))
+                IN IF ~AsciiConsistent(st.heap[r.a]) THEN ma = mb   \* columns are only meaningful for ASCII
+                   ELSE IF col THEN SameFull(ByteAttrsOfOptMap(ma, text), ByteAttrsOfOptMap(mb, text))
                    ELSE LineAttrsOfOptMap(ma, text) = LineAttrsOfOptMap(mb, text)
     [] c[2] = "observer_repeatable" ->
          IF r.op = "map"
            THEN LET text == TextOf(st.heap[r.r])
                     old == st.obs[ObsKey(r)].map
-                IN IF r.columns
+                IN IF ~AsciiConsistent(st.heap[r.r]) THEN r.out.map = old
+                   ELSE IF r.columns
                      THEN SameCore(ByteAttrsOfOptMap(r.out.map, text), ByteAttrsOfOptMap(old, text))
                      ELSE LineAttrsOfOptMap(r.out.map, text) = LineAttrsOfOptMap(old, text)
            ELSE SameAnswer(r.op, r, st.obs[ObsKey(r)])
@@ -851,6 +853,13 @@ Holds(c, r, st) ==
                  /\ ChunkText(cs[i]) = model[i].x
                  /\ <<cs[i].gl, cs[i].gc>> = <<model[i].gl, model[i].gc>>
                  /\ (IF cs[i].o = <<>> THEN <<-1, 0, 0, -1>> ELSE cs[i].o) = RawOf(model[i].s)
+    [] c = <<"DRIFT", "replace_stream_follows_ReplaceM">> ->
+         LET inner == st.obs[<<r.inner, "stream", TRUE, FALSE>>]
+             mine == st.obs[<<r.r, "stream", TRUE, FALSE>>]
+             strip(evs) == LET cs == SelectSeq(evs, IsChunk)
+                           IN [i \in 1..Len(cs) |-> [x |-> ChunkText(cs[i]), gl |-> cs[i].gl, gc |-> cs[i].gc]]
+             model == ReplaceStream(strip(inner.ev), inner.end, Sorted(st.heap[r.r].repls))
+         IN model.chunks = strip(mine.ev) /\ model.end = mine.end
     [] c = <<"DRIFT", "schedule_replayed">> ->
          /\ r.outcome = "completed"
          /\ r.schedule_len > 0 => (r.scheduled = r.schedule_len /\ r.extra = 0)
@@ -883,6 +892,12 @@ OnlyColumnsDiffer(as, bs) ==
        <<as[i].m, as[i].f, as[i].l, as[i].hn, as[i].n>>
          = <<bs[i].m, bs[i].f, bs[i].l, bs[i].hn, bs[i].n>>
 
+(* Without columns the cached lines-only map keeps one segment per inner    *)
+(* line; which piece of a split line names the new output line then depends *)
+(* on whether the cache was filled: for the cached-beneath-replace class no  *)
+(* relation between the per-line attributions of two such answers is        *)
+(* required beyond equal text / line count (generated positions and text are *)
+(* checked by other predicates, which are not downgraded).                  *)
 KF(c, r, st) ==
   CASE c = <<"C03", "map_equals_stream_columns">> ->
          LET chunks == StreamChunks(SeenStream(r, st).ev)
@@ -890,30 +905,48 @@ KF(c, r, st) ==
                /\ OnlyColumnsDiffer(ByteAttrsOfOptMap(r.out.map, StreamText(chunks)),
                                     ByteAttrsOfStream(chunks))
               THEN "cached-beneath-replace-column" ELSE ""
+    [] c = <<"C03", "map_equals_stream_lines">> ->
+         LET chunks == StreamChunks(SeenStream(r, st).ev)
+         IN IF CachedBeneathReplace(TreeOf(r, st))
+               /\ Len(LineAttrsOfOptMap(r.out.map, StreamText(chunks))) = Len(LineAttrsOfStream(chunks))
+              THEN "cached-beneath-replace-granularity" ELSE ""
+    [] c = <<"C03", "none_iff_no_mapped_chunk">> ->
+         IF CachedBeneathReplace(TreeOf(r, st)) /\ ~r.columns
+           THEN "cached-beneath-replace-granularity" ELSE ""
     [] c = <<"C14", "equal_implies_same_answers">> ->
          LET text == st.obs[<<r.a, "source">>].t
-         IN IF /\ CachedBeneathReplace(st.heap[r.a])
+         IN IF CachedBeneathReplace(st.heap[r.a]) /\ ~AsciiConsistent(st.heap[r.a])
                /\ st.obs[<<r.a, "source">>].t = st.obs[<<r.b, "source">>].t
-               /\ (HasObs(st, <<r.a, "map", FALSE>>) /\ HasObs(st, <<r.b, "map", FALSE>>)) =>
-                    LineAttrsOfOptMap(st.obs[<<r.a, "map", FALSE>>].map, text)
-                      = LineAttrsOfOptMap(st.obs[<<r.b, "map", FALSE>>].map, text)
-               /\ (HasObs(st, <<r.a, "map", TRUE>>) /\ HasObs(st, <<r.b, "map", TRUE>>)) =>
+              THEN "cached-beneath-replace-granularity"
+            ELSE IF
+               /\ CachedBeneathReplace(st.heap[r.a])
+               /\ st.obs[<<r.a, "source">>].t = st.obs[<<r.b, "source">>].t
+               /\ ((HasObs(st, <<r.a, "map", FALSE>>) /\ HasObs(st, <<r.b, "map", FALSE>>)) =>
+                    Len(LineAttrsOfOptMap(st.obs[<<r.a, "map", FALSE>>].map, text))
+                      = Len(LineAttrsOfOptMap(st.obs[<<r.b, "map", FALSE>>].map, text)))
+               /\ ((HasObs(st, <<r.a, "map", TRUE>>) /\ HasObs(st, <<r.b, "map", TRUE>>)) =>
                     OnlyColumnsDiffer(ByteAttrsOfOptMap(st.obs[<<r.a, "map", TRUE>>].map, text),
-                                      ByteAttrsOfOptMap(st.obs[<<r.b, "map", TRUE>>].map, text))
-              THEN "cached-beneath-replace-column" ELSE ""
+                                      ByteAttrsOfOptMap(st.obs[<<r.b, "map", TRUE>>].map, text)))
+              THEN "cached-beneath-replace-granularity" ELSE ""
     [] c = <<"C14", "observer_repeatable">> ->
          LET t == st.heap[r.r]
              text == TextOf(t)
-         IN IF CachedBeneathReplace(t) /\ r.op \in {"map", "stream"} /\ r.columns
-               /\ (r.op = "map" =>
+         IN IF CachedBeneathReplace(t) /\ r.op \in {"map", "stream"} /\ ~AsciiConsistent(t)
+              THEN "cached-beneath-replace-granularity"
+            ELSE IF
+               /\ CachedBeneathReplace(t) /\ r.op \in {"map", "stream"}
+               /\ (r.op = "map" /\ r.columns =>
                       OnlyColumnsDiffer(ByteAttrsOfOptMap(r.out.map, text),
                                         ByteAttrsOfOptMap(st.obs[ObsKey(r)].map, text)))
+               /\ (r.op = "map" /\ ~r.columns => TRUE)
                /\ (r.op = "stream" =>
                       /\ StreamText(StreamChunks(r.out.ev)) = StreamText(StreamChunks(st.obs[ObsKey(r)].ev))
                       /\ r.out.end = st.obs[ObsKey(r)].end
-                      /\ OnlyColumnsDiffer(ByteAttrsOfStream(StreamChunks(r.out.ev)),
-                                           ByteAttrsOfStream(StreamChunks(st.obs[ObsKey(r)].ev))))
-              THEN "cached-beneath-replace-column" ELSE ""
+                      /\ IF r.columns
+                           THEN OnlyColumnsDiffer(ByteAttrsOfStream(StreamChunks(r.out.ev)),
+                                                  ByteAttrsOfStream(StreamChunks(st.obs[ObsKey(r)].ev)))
+                           ELSE TRUE)
+              THEN "cached-beneath-replace-granularity" ELSE ""
     [] c = <<"C13", "same_attribution_columns">> ->
          LET text == Seen(st, r.a, "source").t
              tb == st.heap[r.b]
